@@ -20,12 +20,14 @@ def mixes(rng, n):
     base = {"meta": {"pkg": "gen", "imports": {"fx": gen.FX}}, "parameters": {"p": 1},
             "services": {"a": {"constructor": "fx.NewA", "arguments": ["%p%"]}, "b": {"constructor": "fx.NewA", "arguments": ["@a"]}}}
     out = []
-    for mask in range(32):
+    # the missing names come in two spellings: one sorting after and one sorting before every declared name
+    # (validators walk dependencies in sorted order, so the relative position of a missing and a present name matters)
+    for mask, miss in [(m, x) for m in range(32) for x in (("nope",) if not m & 3 else ("nope", "a0"))]:
         c = copy.deepcopy(base)
         if mask & 1:
-            c["services"]["a"]["arguments"].append("%nope%")
+            c["services"]["a"]["arguments"].append("%" + miss + "%")
         if mask & 2:
-            c["services"]["b"]["arguments"].append("@nope")
+            c["services"]["b"]["arguments"].insert(0, "@" + miss)
         if mask & 4:
             c["services"]["a"]["arguments"].append("@b")
         if mask & 8:
@@ -34,7 +36,7 @@ def mixes(rng, n):
             c["services"]["b"]["arguments"].append("@c")
         if mask & 16:
             c["services"]["d e"] = {"constructor": "New A"}
-        out.append(("mask%02d" % mask, c))
+        out.append(("mask%02d%s" % (mask, miss), c))
     for i in range(n):
         c = gen.gen_config(rng)
         if i % 2:
@@ -96,8 +98,8 @@ def run(ctx, n=None):
                 if e != e0 or c["exit"] != c0["exit"]:
                     violations.append({"sig": "flags-affect-earlier-steps", "what": "flags %r change a run that fails before output validation: %r vs %r" % (fl, e, e0), "scenario": scn})
     return {"evaluations": len(cases) * 4, "distinct_nontrivial": len(nontriv),
-            "rule": "all 32 subsets of {missing param, missing service, cycle, scope, grammar} on a base configuration + random (mutated) configurations, each under the 4 flag combinations; non-trivial = reaches output validation with at least one diagnostic",
-            "samples": [{"name": n_, "cfg": gen.yaml_doc(c)[:400]} for n_, c in cases[:2] + cases[33:35]], "distribution": dist,
+            "rule": "all 32 subsets of {missing param, missing service, cycle, scope, grammar} on a base configuration (missing names sorting before and after the declared ones) + random (mutated) configurations, each under the 4 flag combinations; non-trivial = reaches output validation with at least one diagnostic",
+            "samples": [{"name": n_, "cfg": gen.yaml_doc(c)[:400]} for n_, c in cases[:2] + cases[57:59]], "distribution": dist,
             "violations": violations, "corr_fail": corr_fail}
 
 
